@@ -79,12 +79,22 @@ def _build(formula, df, path, output, na, drop, context):
     return PandasMaterializer(df, context=context).get_model_matrix(Formula(formula), drop_rows=drop, na_action=na, output=output)
 
 
-def one(case, index_kind, path, output):
+STORAGE = ["float64", "Int64", "Float64"]       # the same numbers and the same nulls, held by numpy floats (NaN) or by pandas' nullable extension arrays (pd.NA)
+
+
+def one(case, index_kind, path, output, storage="float64"):
     formula = FORMULAS[case["fid"]]
     df = frame(case["nulls"], index_kind)
+    if storage != "float64":
+        import pandas
+
+        for c in ("a", "b"):
+            df[c] = pandas.array([None if v != v else (int(v) if storage == "Int64" else float(v)) for v in df[c].tolist()], dtype=storage)
     before = df.copy(deep=True)
     drop = {d - 1 for d in case["drop0"]}
     base = {"formula": formula, "nulls": case["nulls"], "na": case["na"], "drop0": sorted(drop), "index": index_kind, "path": path, "output": output}
+    if storage != "float64":
+        base["numeric_storage"] = storage
     try:
         res = build(formula, df, path, output, case["na"], drop)
     except Exception as e:  # noqa
@@ -133,6 +143,10 @@ def replay_case(case):
     out = []
     for c in dict.fromkeys(combos):
         out += one(case, *c)
+    if case["nulls"]["a"] or case["nulls"]["b"]:        # a null in a numeric column: also as pd.NA of a nullable extension array
+        c = combos[0]
+        out += one(case, c[0], c[1], c[2], storage=STORAGE[1 + (h // 60) % 2])
+        return out, len(set(combos)) + 1
     return out, len(set(combos))
 
 
